@@ -13,10 +13,12 @@ import (
 
 const ghBuf = "#buf" // ghost: contents of a *bytes.Buffer as an abstract string
 const ghRd = "#rd"   // ghost: remaining contents of a reader created by the library
+const ghCancelled = "#cancelled" // ghost: a bar's cancel function has been called
 
 func init() {
 	heapSorts[ghBuf] = ArrSort(SInt, SStr)
 	heapSorts[ghRd] = ArrSort(SInt, SStr)
+	heapSorts[ghCancelled] = ArrSort(SInt, SBool)
 }
 
 func (x *Exec) rdSet(st *State, r, v *Term) {
